@@ -140,3 +140,15 @@ CLAIMS['C01']['text'] = CLAIMS['C01']['text'].replace('Bit-identity of values, f
 ADDED2 = {'C01': ' Round 2: the inline-vs-array comparisons of IsEqualTo use the same item type on both sides.', 'C02': ' Round 2: NUL-SLOT (a read into a local array leaves room for the terminator that is stored afterwards) and BORROW-SCOPE (a reader pointed at a buffer held by a local Ref is not used after that Ref dies).', 'C03': ' Round 2: RESUME-OFFSET (a transfer of the untransferred rest starts at base + the same cursor).', 'C04': ' Round 2: SetFilterForEntry reads the old filter before overwriting it; marks traversals ignore filters; the raw old-filter pointer is not used after the entry can have been replaced; MATCH-RECHECK.', 'C06': ' Round 2: marks traversals ignore filters; ClearLameDucks removes the end it processed; RESET-COMPLETE (DataNode::Reset()/Init() restore every member other methods change; found and fixed the pooled ordered-child counter).', 'C07': ' Round 2: GetAncestorNode() is dereferenced only with a fallback or after a test; the raw old-filter pointer is not used after SetFilterForEntry().', 'C08': ' Round 2: GetFlattenedSizeForFixedSizeType gives the documented width per type; the micro reader accepts a sub-Message of exactly header size.', 'C10': ' Round 2: SetRef references the new item before it releases the old one (found and fixed a use-after-free on cur = cur()->_next); CastAwayConstFromRef forwards the counting flag; the RefCountable copy constructor does not copy the manager.', 'C11': " Round 2: StartInternalThread looks at the internal thread's queue for the initial signal.", 'C12': ' Round 2: message ids are compared for equality only; packets are deflated independently; RESUME-OFFSET in the packet I/O classes.', 'C13': ' Round 2: an index instruction marks the subscription Messages dirty; the index entry is removed on the quiet path too; NodeCreated records the match count.', 'C14': ' Round 2: SetFromArchive drops the cached matcher on every path.', 'C15': ' Round 2: every return of StringMatcher::Match applies the negate flag.', 'C16': ' Round 2: loops over the item count do not index the raw storage; COPY-FITS (EnsureSizeAux reconciles the requested size with the item count before copying; found and fixed a buffer overflow).', 'C17': ' Round 2: a method that reads its argument with memmove does not release its buffer before that read.', 'C18': ' Round 2: a waiter that times out removes its own entry; leaving the executing table is guarded by both recursion counts; the hand-off after leaving is unconditional.', 'C19': ' Round 2: strict thread limit; Shutdown notifies before it clears the waiters; the batch is handled head-first.', 'C20': ' Round 2: ClearPulseChildren empties all lists; GetPulseTimeAux asks the node itself before draining its pending children.'}
 for _k, _v in ADDED2.items():
     CLAIMS[_k]['text'] = CLAIMS[_k]['text'] + _v
+
+# added after round 2 (see DESIGN.md sections 9 and 10)
+ADDED3 = {
+    'C01': ' Later: NEST-TLS (the namespace-scope counter that bounds the parse recursion has thread storage duration).',
+    'C02': ' Later: the parse-depth counter is thread-local (R-REC thread-local).',
+    'C03': ' Later: STALE-CURSOR in the C gateways (a pointer computed from struct fields is not used after the memmove/compaction that updates those fields).',
+    'C13': ' Later: INDEX-OBSERVERS covers every call that adds an index entry (InsertOrderedChild, ReorderChild, InsertIndexEntryAt): the owner session is flagged as having indexing present (found and fixed: REORDERDATA and CloneDataNodeSubtree did not).',
+}
+for _k, _v in ADDED3.items():
+    CLAIMS[_k]['text'] = CLAIMS[_k]['text'] + _v
+for _k in CLAIMS:
+    CLAIMS[_k]['text'] = CLAIMS[_k]['text'] + ' Robustness: every condition is read independently of its spelling; the thorough tier re-runs the rules on the facts with all comparisons exchanged and all negations respelled and requires the same verdict, and requires silence on the behaviour-preserving patches under equivalents/.'
